@@ -45,6 +45,17 @@ static int probe_fd = -1; // in a probe child: where callbacks report
 
 // ---------------------------------------------------------------- callback pool
 static std::map<const RS*, std::string>* sb_names;
+// the live-sandbox registry as reported by the H2 hook: pushes minus erases per object
+static std::map<const void*, int> listed_count;
+static void list_hook(const char* kind, const void* ptr)
+{
+  std::string k = kind;
+  if (k == "list-push") {
+    listed_count[ptr]++;
+  } else if (k == "list-erase") {
+    listed_count[ptr]--;
+  }
+}
 static void report(const char* fn, RS& sb, long arg)
 {
   if (probe_fd >= 0) {
@@ -310,6 +321,7 @@ int main(int argc, char** argv)
   std::set_terminate(on_terminate);
   std::map<const RS*, std::string> names;
   sb_names = &names;
+  detail::verif_event_hook = list_hook;
 #if !defined(BK_NOOP)
   Sbx::defer_unmap = true;
 #endif
@@ -331,6 +343,7 @@ int main(int argc, char** argv)
     if (op == "reset") {
       teardown();
       names.clear();
+      listed_count.clear();
       W = std::make_unique<World>();
       int nsb = std::atoi(a1.c_str());
       std::string sbs = "[";
@@ -682,6 +695,17 @@ int main(int argc, char** argv)
       e.str("out", "abort").str("what", "unexpected exception");
     }
     e.raw("own", own_projection());
+    {
+      std::string l = "{";
+      bool firstl = true;
+      for (int i = 0; i < NSB; i++) {
+        if (W && W->sb[i]) {
+          l += std::string(firstl ? "" : ",") + "\"" + SB_NAMES[i] + "\":" + std::to_string(listed_count[W->sb[i].get()]);
+          firstl = false;
+        }
+      }
+      e.raw("listed", l + "}");
+    }
     out.put(e);
   }
   teardown();
